@@ -42,6 +42,12 @@ pub struct GenOpts {
   pub map_group_occ: bool,
   /// `//=` increments of group rules
   pub group_increments: bool,
+  /// recursive references (through containers with a zero minimum)
+  pub recursion: bool,
+  /// the simple value 23 (`undefined`, `#7.23`)
+  pub undefined: bool,
+  /// `#6` / `#6(...)` without a tag number
+  pub tag_without_number: bool,
 }
 
 impl Default for GenOpts {
@@ -67,6 +73,9 @@ impl Default for GenOpts {
       dup_literal_keys: true,
       map_group_occ: true,
       group_increments: true,
+      recursion: true,
+      undefined: true,
+      tag_without_number: true,
     }
   }
 }
@@ -188,7 +197,8 @@ impl<'a, 'b, 'o> SemGen<'a, 'b, 'o> {
   fn int_lit(&mut self) -> i128 {
     if self.o.cbor && self.t.chance(1, 8) {
       let v = *self.t.pick(crate::cbor::EDGE_UINTS) as i128;
-      if self.t.chance(1, 3) { -1 - v } else { v }
+      // literals must be representable: -2^63 ..= 2^64-1
+      if self.t.chance(1, 3) && v < (1i128 << 63) { -1 - v } else { v }
     } else {
       self.t.range(-3, 12) as i128
     }
@@ -214,7 +224,7 @@ impl<'a, 'b, 'o> SemGen<'a, 'b, 'o> {
 
   /// reference to a type rule that may be used here (later rule, or any rule when recursion is allowed)
   fn type_ref(&mut self, d: usize) -> Option<Ty2> {
-    let lo = if self.can_recurse { 0 } else { self.cur + 1 };
+    let lo = if self.can_recurse && self.o.recursion { 0 } else { self.cur + 1 };
     let cands: Vec<usize> = (lo..self.plan.len()).filter(|i| !self.plan[*i].is_group).collect();
     if cands.is_empty() {
       return None;
@@ -235,7 +245,7 @@ impl<'a, 'b, 'o> SemGen<'a, 'b, 'o> {
   }
 
   fn group_ref(&mut self, d: usize) -> Option<(String, Vec<Ty1>)> {
-    let lo = if self.can_recurse { 0 } else { self.cur + 1 };
+    let lo = if self.can_recurse && self.o.recursion { 0 } else { self.cur + 1 };
     let cands: Vec<usize> = (lo..self.plan.len()).filter(|i| self.plan[*i].is_group).collect();
     if cands.is_empty() {
       return None;
@@ -249,7 +259,7 @@ impl<'a, 'b, 'o> SemGen<'a, 'b, 'o> {
   fn prelude_scalar(&mut self) -> &'static str {
     let base: &[&str] =
       &["int", "uint", "nint", "tstr", "text", "bool", "true", "false", "nil", "null", "float", "number", "any", "int", "tstr", "uint"];
-    let cb: &[&str] = &["bstr", "bytes", "undefined"];
+    let cb: &[&str] = if self.o.undefined { &["bstr", "bytes", "undefined"] } else { &["bstr", "bytes", "bstr"] };
     if self.o.cbor && self.t.chance(1, 6) {
       *self.t.pick(cb)
     } else {
@@ -282,6 +292,11 @@ impl<'a, 'b, 'o> SemGen<'a, 'b, 'o> {
     }
     if l == u {
       u += 1 + self.t.below(3) as i128;
+    }
+    if u > u64::MAX as i128 {
+      // bounds must stay representable
+      u = u64::MAX as i128;
+      l = u - 1 - self.t.below(3) as i128;
     }
     if !self.o.mixed_sign_ranges && l < 0 && u >= 0 {
       l = 0;
@@ -382,7 +397,7 @@ impl<'a, 'b, 'o> SemGen<'a, 'b, 'o> {
   fn cbor_leaf(&mut self, d: usize) -> Ty1 {
     match self.t.below(4) {
       0 if d > 0 => {
-        let num = if self.t.chance(1, 8) {
+        let num = if self.t.chance(1, 8) && self.o.tag_without_number {
           None
         } else {
           let v = *self.t.pick(&[0u64, 1, 2, 24, 32, 99, 1234, 55799]);
@@ -394,11 +409,17 @@ impl<'a, 'b, 'o> SemGen<'a, 'b, 'o> {
         Ty1::plain(Ty2::Tag { num, ty })
       }
       1 => {
-        let mt = self.t.below(8) as u8;
+        let mut mt = self.t.below(8) as u8;
+        if mt == 6 && !self.o.tag_without_number {
+          mt = 5;
+        }
         Ty1::plain(Ty2::Major { mt, num: None })
       }
       2 => {
-        let n = *self.t.pick(&[20u64, 21, 22, 23, 0, 16, 19, 32, 255]);
+        let mut n = *self.t.pick(&[20u64, 21, 22, 23, 0, 16, 19, 32, 255]);
+        if n == 23 && !self.o.undefined {
+          n = 22;
+        }
         Ty1::plain(Ty2::Major { mt: 7, num: Some(TagNum::Lit(n, n.to_string())) })
       }
       _ => Ty1::plain(Ty2::Any),
